@@ -267,6 +267,7 @@ Result execute(const Plan &p) {
         prm.put("precond.coarse_enough", p.get("coarse_enough"));
         prm.put("precond.npre", p.get("npre")); prm.put("precond.npost", p.get("npre")); prm.put("precond.ncycle", p.get("ncycle")); prm.put("precond.pre_cycles", p.get("pre_cycles"));
         prm.put("precond.allow_rebuild", sc.allow_rebuild);
+        if (p.get("ncycle") > 1) prm.put("precond.max_levels", 6);      // a W-cycle over a deep hierarchy costs 2^levels
     }
     sim::RunStatus st = world(nt, p.sched, [&]() { if (sc.relax_only) run_script<RelaxSolver>(p, sc, res); else run_script<AmgSolver>(p, sc, res); });
     res.absorb(st); res.deviations = st.deviations;
